@@ -118,6 +118,7 @@ def expand_moltype(mt, restypes):
     atoms = []
     first_atom = {}
     res_atom_ids = {}
+    restypes = dict(restypes, **mt.get("restype_override", {}))
     for r, rname in enumerate(mt["residues"]):
         rt = restypes[rname]
         ids = []
